@@ -834,4 +834,5 @@ Proof.
 Qed.
 
 Lemma drx_lw_3 : 3 <= 16. Proof. lia. Qed.
+Lemma drx_lw_4 : 4 <= 16. Proof. lia. Qed.
 Lemma drx_lw_11 : 11 <= 16. Proof. lia. Qed.
